@@ -435,7 +435,8 @@ PYEXC = {"InvalidPositionException", "InvalidStrandException", "ValueError", "Ty
          "MismatchedFrameException", "InvalidCDSIntervalError"}
 LEAN_TYPE = {"Int": "Int", "Bool": "Bool", "Strand": "Strand", "CDSFrame": "CDSFrame", "CDSPhase": "CDSPhase",
              "SI": "SI", "OptSI": "Option SI", "Sym": "List Char", "Bins": "BinsResult", "VI": "VI",
-             "CoordFmt": "CoordFmt", "DistanceType": "DistanceType", "CI": "CI", "RelOut": "RelOut"}
+             "CoordFmt": "CoordFmt", "DistanceType": "DistanceType", "CI": "CI", "RelOut": "RelOut",
+             "CombineOut": "CombineOut"}
 
 
 # methods of a SingleInterval-typed value that are themselves kernels: attr -> (kernel, argument types, result type).
@@ -458,7 +459,9 @@ CI_METHODS = {
     "scan_blocks": ("CompoundInterval_scan_blocks", [], "List:SI"),
     "parent_to_relative_pos": ("CompoundInterval_parent_to_relative_pos", ["Int"], "Int"),
     "relative_to_parent_pos": ("CompoundInterval_relative_to_parent_pos", ["Int"], "Int"),
+    "_combine_blocks": ("CompoundInterval_combine_blocks", ["Bool"], "CombineOut"),
 }
+CI_METHOD_PARAMS = {"_combine_blocks": ["preserve_overlappers"]}
 # attributes of a CI-typed value: Python attribute -> (Lean projection, type); valid under `ci_view_guards`
 CI_ATTRS = {
     "strand": ("strand", "Strand"),
@@ -475,6 +478,11 @@ def lean_type(t):
     """Lean spelling of a translator type (None when the type has no first-class Lean counterpart)."""
     if t in LEAN_TYPE:
         return LEAN_TYPE[t]
+    if t == "Opt:Int":
+        return "Option Int"
+    if t.startswith("Iter1:"):
+        e = lean_type(t[6:])
+        return None if e is None else f"({e} × List {e})"
     if t.startswith("List:"):
         e = lean_type(t[5:])
         return None if e is None else (f"List {e}" if " " not in e or e.startswith("(") else f"List ({e})")
@@ -629,6 +637,8 @@ class K:
             if n.id in self.fixed:
                 return [], ("True" if self.fixed[n.id] else "False"), "Prop"     # parameter pinned to its default
             if n.id in self.types:
+                if self.types[n.id] == "Opt:Int" and ("#narrow:" + n.id) in self.types:
+                    return [], self.types["#narrow:" + n.id], "Int"      # known to hold that int on this path
                 return [], lname(n.id), self.types[n.id]
             if n.id in self.consts and isinstance(self.consts[n.id], int):
                 return [], f"({self.consts[n.id]} : Int)", "Int"
@@ -685,6 +695,8 @@ class K:
                     return bl, f"({cl} / {2 ** rv})", "Int"
                 return bl, f"({cl} * {2 ** rv})", "Int"
             br, cr, tr = self.expr(n.right)
+            bl, cl, tl = self.as_int(bl, cl, tl)
+            br, cr, tr = self.as_int(br, cr, tr)
             if tl != "Int" or tr != "Int":
                 raise Unsupported(f"binop on {tl},{tr}")
             op = {ast.Add: "+", ast.Sub: "-", ast.Mult: "*"}.get(type(n.op))
@@ -722,6 +734,28 @@ class K:
                     c = "(" + " ∨ ".join(alts) + ")"
                     conj.append(c if isinstance(op, ast.In) else f"(¬ {c})")
                     continue
+                if self.loops and isinstance(op, (ast.Is, ast.IsNot, ast.Eq, ast.NotEq)) and "None" in (ta, tb) \
+                        and {ta, tb} <= {"None", "Opt:Int", "Int"}:
+                    # `x is None` on an Optional[int] local; on a value known to be an int the test is decided
+                    neg = isinstance(op, (ast.IsNot, ast.NotEq))
+                    other_c, other_t = (a, ta) if tb == "None" else (b_, tb)
+                    if other_t == "None":
+                        conj.append("False" if neg else "True")
+                    elif other_t == "Int":
+                        conj.append("True" if neg else "False")
+                    else:
+                        conj.append(f"({other_c} {'≠' if neg else '='} none)")
+                    continue
+                if self.loops and isinstance(op, (ast.Eq, ast.NotEq)) and {ta, tb} == {"Opt:Int", "Int"}:
+                    # None == <int> is False, otherwise the ints are compared
+                    o, i = (a, b_) if ta == "Opt:Int" else (b_, a)
+                    conj.append(f"({o} {'=' if isinstance(op, ast.Eq) else '≠'} some {i})")
+                    continue
+                if self.loops and isinstance(op, (ast.Lt, ast.LtE, ast.Gt, ast.GtE)) and "Opt:Int" in (ta, tb):
+                    # ordering against None raises TypeError: unwrap first
+                    binds, a, ta = self.as_int(binds, a, ta)
+                    binds, b_, tb = self.as_int(binds, b_, tb)
+                    items[i], items[i + 1] = (a, ta), (b_, tb)
                 if ta == "None" or tb == "None":
                     raise Unsupported("comparison with None")
                 if ta != tb and not ({ta, tb} <= {"Int"}):
@@ -731,6 +765,8 @@ class K:
                 if sym in "<≤>≥" and ta != "Int":
                     raise Unsupported("ordering on non-int")
                 conj.append(f"({a} {sym} {b_})")
+            if self.loops and len(conj) == 1 and conj[0] in ("True", "False"):
+                return binds, conj[0], "Prop"
             return binds, "(" + " ∧ ".join(conj) + ")", "Prop"
         if isinstance(n, ast.IfExp):
             bt, ct, tt = self.expr(n.test)
@@ -760,6 +796,8 @@ class K:
             fname = f.id if isinstance(f, ast.Name) else None
             if fname in ("min", "max") and len(n.args) == 2:
                 (ba, ca, ta), (bb, cb, tb) = self.expr(n.args[0]), self.expr(n.args[1])
+                ba, ca, ta = self.as_int(ba, ca, ta)
+                bb, cb, tb = self.as_int(bb, cb, tb)
                 if ta != "Int" or tb != "Int":
                     raise Unsupported("min/max on non-int")
                 return ba + bb, f"({fname} {ca} {cb})", "Int"
@@ -812,6 +850,18 @@ class K:
                 tmp = self.fresh()
                 binds = sum((a[0] for a in args), [])
                 return binds + [(tmp, f"mkSI {args[0][1]} {args[1][1]} {args[2][1]}")], tmp, "SI"
+            if self.loops and fname == "CompoundInterval" and self.ret == "CombineOut" and len(n.args) in (3, 4) \
+                    and not n.keywords:
+                # CONSTRUCTOR CUT: the call's arguments are returned, `CompoundInterval.__init__` (sorting, validation)
+                # is not translated.  The strand must be the receiver's own, the parent an opaque parent expression.
+                (ba, ca, ta), (bb, cb, tb) = self.expr(n.args[0]), self.expr(n.args[1])
+                if ba or bb or ta != "List:Int" or tb != "List:Int":
+                    raise Unsupported("CompoundInterval(starts, ends, ...): starts/ends must be int lists")
+                if attr_chain(n.args[2]) != ["self", "strand"] or self.types.get("self") != "CI":
+                    raise Unsupported("CompoundInterval(...): strand must be self.strand")
+                if len(n.args) == 4 and not (isinstance(n.args[3], ast.Name) and n.args[3].id in self.opaque):
+                    raise Unsupported("CompoundInterval(...): parent argument")
+                return [], f"(CombineOut.rebuilt {ca} {cb})", "CombineOut"
             if fname == "EmptyLocation" and not n.args:
                 return [], "none", "None"
             if fname in ("CDSFrame", "CDSPhase") and len(n.args) == 1:
@@ -845,11 +895,18 @@ class K:
                         raise Unsupported("has_overlap view: other must be a SingleInterval and match_strand statically False")
                     tmp = self.fresh()
                     return [(tmp, f"{kname} {lname(ch[0])} {co}")], tmp, "Bool"
-                if ch and len(ch) == 2 and self.types.get(ch[0]) == "CI" and ch[1] in CI_METHODS and not n.keywords:
+                if ch and len(ch) == 2 and self.types.get(ch[0]) == "CI" and ch[1] in CI_METHODS:
                     kname, atys, rty = CI_METHODS[ch[1]]
                     if kname not in EMITTED:
                         raise Unsupported(f"{kname} not generated before its caller")
-                    args = [self.expr(a) for a in n.args]
+                    actual = list(n.args)
+                    pnames = CI_METHOD_PARAMS.get(ch[1], [])
+                    for kw in n.keywords:     # keywords in declaration order directly after the positional arguments
+                        if len(actual) >= len(pnames) or kw.arg != pnames[len(actual)]:
+                            raise Unsupported(f"keyword argument {kw.arg} of {ch[1]}")
+                        actual.append(kw.value)
+                    args = [self.expr(a) for a in actual]
+                    args = [(b, (c if t != "Prop" else f"(decide {c})"), ("Bool" if t == "Prop" else t)) for b, c, t in args]
                     if [a[2] for a in args] != atys:
                         raise Unsupported(f"arguments of {ch[1]}: {[a[2] for a in args]}")
                     tmp = self.fresh()
@@ -883,7 +940,19 @@ class K:
             return c
         if t == "Bool":
             return f"({c} = true)"
+        if self.loops and t.startswith("List:"):
+            return f"({c} ≠ [])"
         raise Unsupported(f"truthiness of {t}")
+
+    def as_int(self, binds, c, t):
+        """an Optional[int] operand of arithmetic / ordering / min / max: None raises TypeError"""
+        if self.loops and t == "Opt:Int":
+            tmp = self.fresh()
+            return binds + [(tmp, f"optGet {c}")], tmp, "Int"
+        return binds, c, t
+
+    def forget(self, name):
+        self.types.pop("#narrow:" + name, None)
 
     # -- statements
     def wrap(self, binds, body):
@@ -907,6 +976,10 @@ class K:
                 return f"(BinsResult.many {c})"
         if r == "RelOut" and t == "SI":
             return f"(RelOut.single {c})"
+        if r == "CombineOut" and t == "CI" and c == "self":
+            return "CombineOut.same"
+        if r == "CombineOut" and t == "None":
+            return "CombineOut.empty"
         if r == "Unit":
             return "(0 : Int)"
         if r == "Bool" and t == "Prop":
@@ -1023,6 +1096,9 @@ class K:
         name = f"{self.spec['name']}_loop{self.nloops}"
         saved = dict(self.types)
         stypes = [saved[v] for v in state]
+        for v in state:
+            saved.pop("#narrow:" + v, None)      # a state variable's value is not known across iterations
+        self.types = dict(saved)
         self.types.update(targets)
         self.ctx.append(dict(name=name, frees=frees, state=state, state_types=stypes, targets=tnames))
         try:
@@ -1050,8 +1126,9 @@ class K:
         if s.orelse or s.finalbody or len(s.handlers) != 1:
             raise Unsupported("try: exactly one except clause, no else/finally")
         h = s.handlers[0]
-        if h.name or not isinstance(h.type, ast.Name) or h.type.id not in PYEXC:
-            raise Unsupported("except clause must name one known exception class without `as`")
+        if h.name or not isinstance(h.type, ast.Name) or h.type.id not in PYEXC or h.type.id == "KeyError":
+            # (KeyError also stands for IndexError in `listSetLast`: a handler could not tell them apart)
+            raise Unsupported("except clause must name one known exception class (not KeyError) without `as`")
         if self.pure:
             raise Unsupported("nested try")
         if self.excsub is None:
@@ -1075,6 +1152,7 @@ class K:
             raise Unsupported(f"try: assignment of {t}")
         self.check_state_type(target, t)
         saved = dict(self.types)
+        self.forget(target)
         self.types[target] = t
         self.pure += 1
         try:
@@ -1176,7 +1254,7 @@ class K:
                 if self.types.get(nm) != ty:
                     raise Unsupported(f"cut: local {nm} has type {self.types.get(nm)}, expected {ty}")
             self.tail = [ast.unparse(x) for x in stmts]
-            return ".ok (" + " ".join([cut["ctor"]] + [lname(nm) for nm, _ in cut["returns"]]) + ")"
+            return ".ok (" + " ".join(([cut["ctor"]] if cut["ctor"] else []) + [lname(nm) for nm, _ in cut["returns"]]) + ")"
         lazy = self.lazy_attribute(s, rest)
         if lazy is not None:
             return self.block([ast.Return(value=lazy)])
@@ -1252,15 +1330,68 @@ class K:
                 target = s.target
                 value = ast.BinOp(left=ast.Name(id=target.id, ctx=ast.Load()), op=s.op, right=s.value)
             else:
+                if self.loops and len(s.targets) > 1 and all(isinstance(t, ast.Name) for t in s.targets) \
+                        and isinstance(s.value, ast.Constant):
+                    # a = b = <constant>
+                    return self.block([ast.Assign(targets=[t], value=s.value) for t in s.targets] + rest)
                 if len(s.targets) != 1:
                     raise Unsupported("multiple assignment")
                 target, value = s.targets[0], s.value
+            if self.loops and isinstance(target, ast.Subscript) and isinstance(target.value, ast.Name) \
+                    and self.types.get(target.value.id) == "List:Int" and isinstance(target.slice, ast.UnaryOp) \
+                    and isinstance(target.slice.op, ast.USub) and isinstance(target.slice.operand, ast.Constant) \
+                    and target.slice.operand.value == 1 and isinstance(s, ast.Assign):
+                # xs[-1] = v
+                xs = target.value.id
+                b, c, t = self.expr(value)
+                if t != "Int":
+                    raise Unsupported(f"xs[-1] = <{t}>")
+                tmp = self.fresh()
+                return self.wrap(b + [(tmp, f"listSetLast {lname(xs)} {c}")],
+                                 f"let {lname(xs)} : List Int := {tmp}\n" + self.block(rest))
             if not isinstance(target, ast.Name):
                 raise Unsupported("assignment target")
             src = ast.unparse(value)
             if ".parent" in src or "strip_location_info" in src:
                 self.opaque.add(target.id)          # parent bookkeeping: not part of the integer kernel
                 return self.block(rest)
+            if self.loops and isinstance(value, ast.IfExp):
+                probe_types = dict(self.types)
+                eff = bool(self.expr(value.body)[0] or self.expr(value.orelse)[0])
+                self.types = probe_types
+                if eff:
+                    # a branch of the conditional expression can raise: evaluate only the branch taken
+                    mk = lambda v: ast.Assign(targets=[ast.Name(id=target.id, ctx=ast.Store())], value=v)  # noqa
+                    return self.block([ast.If(test=value.test, body=[mk(value.body)], orelse=[mk(value.orelse)])] + rest)
+            if self.loops and isinstance(value, ast.Call) and isinstance(value.func, ast.Name) and value.func.id == "next" \
+                    and len(value.args) == 1 and isinstance(value.args[0], ast.Name) and not value.keywords:
+                it = value.args[0].id
+                ity = self.types.get(it, "")
+                if not ity.startswith("Iter1:") or self.ctx or self.pure or it == target.id:
+                    raise Unsupported("next(): only the first next() of an iterator declared non-empty (Iter1) is translated")
+                et = ity[6:]
+                self.forget(target.id)
+                self.check_state_type(target.id, et)
+                self.types[target.id] = et
+                self.types[it] = "List:" + et          # the rest of the iterator
+                return (f"let {lname(target.id)} : {lean_type(et)} := {lname(it)}.1\n"
+                        f"let {lname(it)} : {lean_type('List:' + et)} := {lname(it)}.2\n" + self.block(rest))
+            if self.loops and self.spec.get("locals", {}).get(target.id) == "Opt:Int":
+                # declared Optional[int] local: None / an int (then known to be that int until reassigned) / another optional
+                b, c, t = self.expr(value)
+                self.check_state_type(target.id, "Opt:Int")
+                self.forget(target.id)
+                self.types[target.id] = "Opt:Int"
+                if t == "None":
+                    return self.wrap(b, f"let {lname(target.id)} : Option Int := none\n" + self.block(rest))
+                if t == "Int":
+                    tmp = self.fresh()
+                    self.types["#narrow:" + target.id] = tmp
+                    return self.wrap(b, f"let {tmp} : Int := {c}\nlet {lname(target.id)} : Option Int := some {tmp}\n"
+                                     + self.block(rest))
+                if t == "Opt:Int":
+                    return self.wrap(b, f"let {lname(target.id)} : Option Int := {c}\n" + self.block(rest))
+                raise Unsupported(f"assignment of {t} to the Optional[int] local {target.id}")
             if isinstance(value, ast.List) and len(value.elts) == 2:
                 (ba, ca, ta), (bb, cb, tb) = self.expr(value.elts[0]), self.expr(value.elts[1])
                 if ta != "Int" or tb != "Int":
@@ -1288,6 +1419,7 @@ class K:
                 return f"let {lname(target.id)} : {lean_type(t)} := []\n" + self.block(rest)
             b, c, t = self.expr(value)
             if self.loops:
+                self.forget(target.id)
                 self.check_state_type(target.id, t)
                 if t == "Prop":
                     c, t = f"(decide {c})", "Bool"
@@ -1306,6 +1438,7 @@ class K:
                 out = ""
                 for nm, jt, code in joined:
                     self.check_state_type(nm, jt)
+                    self.forget(nm)
                     self.types[nm] = jt
                     out += f"let {lname(nm)} : {lean_type(jt)} := {code}\n"
                 return out + self.block(rest)
@@ -1417,6 +1550,25 @@ KERNELS = [
     dict(name="CompoundInterval_has_overlap", file="location/location_impl.py", cls="CompoundInterval", fn="has_overlap",
          args=[("self", "CI"), ("other", "SI")], ret="Bool", loops=True, si_has_overlap_view=True,
          fixed={"match_strand": False, "full_span": False, "strict_parent_compare": False}),
+    # CONSTRUCTOR CUT: `return CompoundInterval(new_starts, new_ends, self.strand, new_parent)` returns
+    # `CombineOut.rebuilt new_starts new_ends` (the constructor's sorting/validation is not translated);
+    # `return self` -> `CombineOut.same`, `return EmptyLocation()` -> `CombineOut.empty`
+    dict(name="CompoundInterval_combine_blocks", file="location/location_impl.py", cls="CompoundInterval",
+         fn="_combine_blocks", args=[("self", "CI"), ("preserve_overlappers", "Bool")], ret="CombineOut", loops=True,
+         locals={"new_starts": "List:Int", "new_ends": "List:Int", "curr_start": "Opt:Int", "curr_end": "Opt:Int"}),
+    # CUT before `if not combined.is_empty: return combined._to_single_interval_if_one_block() ...`: returns `combined`
+    dict(name="CompoundInterval_optimize_blocks", file="location/location_impl.py", cls="CompoundInterval",
+         fn="optimize_blocks", args=[("self", "CI")], ret="CombineOut", loops=True,
+         cut=dict(before_call="_to_single_interval_if_one_block", ctor=None, returns=[("combined", "CombineOut")])),
+    dict(name="CompoundInterval_optimize_and_combine_blocks", file="location/location_impl.py", cls="CompoundInterval",
+         fn="optimize_and_combine_blocks", args=[("self", "CI")], ret="CombineOut", loops=True,
+         cut=dict(before_call="_to_single_interval_if_one_block", ctor=None, returns=[("combined", "CombineOut")])),
+    # HEAD CUT: starts after `block_iter = optimized.scan_blocks()`; `block_iter` (the blocks of the optimized location
+    # in scan order) is an argument declared NON-EMPTY (`optimized` is not empty there), which is what makes the first
+    # `next(block_iter)` total
+    dict(name="CompoundInterval_gap_list", file="location/location_impl.py", cls="CompoundInterval", fn="gap_list",
+         args=[("self", "CI")], ret="List:SI", loops=True, locals={"gaps": "List:SI"},
+         head=dict(skip=3, binds=("block_iter", "Iter1:SI"))),
 ]
 
 
@@ -1490,21 +1642,43 @@ def gen_kernels(repo, errors):
             stmts = list(fn.body)
             if spec.get("loops"):
                 stmts = body_no_doc(fn)
+            head = None
+            if spec.get("head"):
+                # HEAD CUT: the first statements compute a value the kernel takes as an argument instead
+                hd = spec["head"]
+                head, stmts = stmts[:hd["skip"]], stmts[hd["skip"]:]
+                last = head[-1] if head else None
+                if not (isinstance(last, ast.Assign) and len(last.targets) == 1 and isinstance(last.targets[0], ast.Name)
+                        and last.targets[0].id == hd["binds"][0]):
+                    raise Unsupported(f"head cut: statement {hd['skip']} does not assign {hd['binds'][0]}")
+                if any(isinstance(nd, ast.Name) and isinstance(nd.ctx, ast.Store) and nd.id != hd["binds"][0]
+                       and any(isinstance(u, ast.Name) and u.id == nd.id for st in stmts for u in ast.walk(st))
+                       for h in head for nd in ast.walk(h)):
+                    raise Unsupported("head cut: the remainder uses another local assigned in the skipped head")
+                k.types[hd["binds"][0]] = hd["binds"][1]
             body = k.block(stmts) if spec["ret"] != "Unit" else k.block(fn.body + [ast.Return(value=ast.Constant(value=0))])
             if spec.get("generator"):
                 body = f"let yield_ : {lean_type(spec['ret'])} := []\n" + body
             if spec.get("cut") and k.tail is None:
                 raise Unsupported(f"cut point (a call of {spec['cut']['before_call']}) not found")
             ret = (lean_type(spec["ret"]) or "Int") if spec["ret"] != "Unit" else "Int"
-            args = " ".join(f"({a} : {lean_type(t)})" for a, t in spec["args"])
+            args = " ".join(f"({a} : {lean_type(t)})" for a, t in
+                            list(spec["args"]) + ([tuple(spec["head"]["binds"])] if spec.get("head") else []))
             out.extend(k.aux)
             doc = f"{spec['file']}: {(spec['cls'] + '.') if spec['cls'] else ''}{spec['fn']}"
             if k.tail is not None:
                 out.append(f"/-- the statements of {spec['fn']} after the cut (not translated; pinned as text) -/")
                 out.append(f"def {spec['name']}_tail : List (List Char) :=\n  ["
                            + ",\n   ".join(lean_chars(x) for x in k.tail) + "]\n")
-                doc += (f" — CUT before the call of {spec['cut']['before_call']}: returns {spec['cut']['ctor']} "
-                        + " ".join(nm for nm, _ in spec["cut"]["returns"]))
+                doc += (f" — CUT before the call of {spec['cut']['before_call']}: returns "
+                        + " ".join(([spec["cut"]["ctor"]] if spec["cut"]["ctor"] else [])
+                                   + [nm for nm, _ in spec["cut"]["returns"]]))
+            if head is not None:
+                out.append(f"/-- the first statements of {spec['fn']}, which compute the argument `{spec['head']['binds'][0]}` "
+                           f"(not translated; pinned as text) -/")
+                out.append(f"def {spec['name']}_head : List (List Char) :=\n  ["
+                           + ",\n   ".join(lean_chars(ast.unparse(x)) for x in head) + "]\n")
+                doc += f" — HEAD CUT: starts after `{ast.unparse(head[-1])}`, taking `{spec['head']['binds'][0]}` as an argument"
             if spec.get("fixed"):
                 doc += " — view with " + ", ".join(f"{a}={v}" for a, v in spec["fixed"].items()) + " (the defaults)"
             out.append(f"/-- {doc} -/")
